@@ -379,6 +379,32 @@ func suite(tier string) []qx.SuiteItem {
 			}
 		}
 	}
+	if tier == "thorough" {
+		// programs of three concurrent calls (deviation bound 1): all triples for the small menus, a selection of
+		// eight methods for Conn
+		sel := map[string][]string{
+			"Conn": {"Close", "Offset", "ReadBatch", "ReadLastOffset", "ReadMessage", "Seek-absolute", "SetDeadline", "WriteMessages"},
+		}
+		for _, tg := range targets() {
+			if only != "" && !strings.HasPrefix(tg.name, only) {
+				continue
+			}
+			if strings.HasPrefix(tg.name, "Balancer") || strings.HasPrefix(tg.name, "Codec") || tg.name == "Writer-async" {
+				continue
+			}
+			names := namesOf[tg.name]
+			if l, ok := sel[tg.name]; ok {
+				names = l
+			}
+			for i := range names {
+				for j := i; j < len(names); j++ {
+					for k := j; k < len(names); k++ {
+						items = append(items, qx.SuiteItem{Scn: scenario(tg, []string{names[i], names[j], names[k]}), Bound: 1, Whole: true})
+					}
+				}
+			}
+		}
+	}
 	return items
 }
 
